@@ -3,5 +3,6 @@ pub mod invariants;
 pub mod ops;
 pub mod ref_abs;
 pub mod ref_mode;
+pub mod ref_walk;
 pub mod reffs;
 pub mod tree;
